@@ -538,7 +538,8 @@ impl<const ID: u8, const KIND: u8, Inner: RefNode> RefNode for RRule<ID, KIND, I
 
 // ------------------------------------------------------------------ abstract children
 pub const ABS_IDS: usize = 4;
-pub const ABS_POS: usize = 4;
+/// table capacity (positions 0..=5); `abs_init` fills positions 0..=3, `abs_init_p::<P>` positions 0..P
+pub const ABS_POS: usize = 6;
 /// Outcome tables of the abstract children: `TABLE[id][pos][min(depth,2)]` = 0 (fail) or 1 + advance.
 /// Filled with symbolic values by `abs_init`; read by both the real `Abs` node and `RAbs`.
 pub static mut TABLE: [[[u8; 3]; ABS_POS]; ABS_IDS] = [[[0; 3]; ABS_POS]; ABS_IDS];
@@ -547,10 +548,16 @@ pub static mut TABLE: [[[u8; 3]; ABS_POS]; ABS_IDS] = [[[0; 3]; ABS_POS]; ABS_ID
 /// advance by 0..=n-p. `min_adv` forces successful outcomes to advance at least that much
 /// (1 for repetition bodies: what pest's validator guarantees).
 pub fn abs_init(n: usize, min_adv: [u8; ABS_IDS]) {
+    assert!(n == 3);
+    abs_init_p::<4>(min_adv)
+}
+/// Same for inputs of P - 1 positions (P table rows per child).
+pub fn abs_init_p<const P: usize>(min_adv: [u8; ABS_IDS]) {
+    let n = P - 1;
     let mut id = 0;
     while id < ABS_IDS {
         let mut p = 0;
-        while p < ABS_POS {
+        while p < P {
             let mut d = 0;
             while d < 3 {
                 let v = nd::u8();
